@@ -13,7 +13,7 @@ PROFILE = 'uid'
 def run(chk):
     chk.rule = ('random-walk histories over 3-4 .ics names and 3 UIDs drawn from a pool with case/space/escape variants (creates, overwrites that keep or change the UID, deletes, restarts, conditional writes) on all four back ends; a case is one (back end, resolved history); non-trivial = at least two mutating operations; plus HTTP histories (PUT, POST add-member with parameterised content types, DELETE) through both front ends')
     import transval
-    chk.lean_obligations(MODULE, AUDIT, regen=lambda c: transval.regen(c, ["ExcTables"]))
+    chk.lean_obligations(MODULE, AUDIT, regen=lambda c: transval.regen(c, ["ExcTables", "StoreGate"]))
     toks = Tokens()
     n = 14 if chk.tier == "quick" else 200
     tmpls = gen_many(chk, toks, n, 25 if chk.tier == "quick" else 40, PROFILE)
